@@ -372,6 +372,7 @@ structure Scope where
   rangeRequests : Option Bool := none
   maxKeepAliveRequests : Option Nat := none
   docRoot : Option Bytes := none
+  allowHttp11 : Option Bool := none
 deriving Repr, DecidableEq
 
 structure Site where
@@ -379,6 +380,8 @@ structure Site where
   indexNames : List Bytes := []           -- index-file.names
   denySuffix : List Bytes := []           -- url.access-deny
   excludeExt : List Bytes := []           -- static-file.exclude-extensions
+  sinkExt : List Bytes := []              -- extensions handled by a body-reading handler module (CGI-like)
+  sinkBody : Bytes := []                  -- what that handler answers
   scopes : List Scope := []
 deriving Repr, DecidableEq
 
@@ -401,14 +404,20 @@ def applyScope (c : Conf) (sc : Scope) : Conf :=
   { c with extra := sc.extra.getD c.extra,
            rangeRequests := sc.rangeRequests.getD c.rangeRequests,
            maxKeepAliveRequests := sc.maxKeepAliveRequests.getD c.maxKeepAliveRequests,
-           docRoot := sc.docRoot.getD c.docRoot }
+           docRoot := sc.docRoot.getD c.docRoot,
+           allowHttp11 := sc.allowHttp11.getD c.allowHttp11 }
 
-/-- config_cond_cache_reset() + config_patch_config(): every block is evaluated against the
-    current request (never against cached results of an earlier one) and the matching blocks
-    are merged, in file order, over r->conf -/
+/-- http_response_config(): config_cond_cache_reset() + config_patch_config() (every block is
+    evaluated against the current request, never against cached results of an earlier one; the
+    matching blocks are merged, in file order, over r->conf), server_name, the HTTP/1.1 -> 1.0
+    downgrade of server.protocol-http11 = "disable".  The max-request-size check that follows is
+    in `prepareSetup`. -/
 def httpResponseConfig (site : Site) (s : ReqCore) : ReqCore :=
   let conf := site.scopes.foldl (fun c sc => if evalCond s sc.cond then applyScope c sc else c) s.conf
-  { s with conf := conf, serverName := .authority }
+  let s := { s with conf := conf, serverName := if conf.serverName.isSome then .conf else .authority }
+  if !conf.allowHttp11 && s.version = 1 then
+    s.onLive fun l => rqstUnset { l with version := 0, keepAlive := 0 } idUpgrade (ofString "upgrade")
+  else s
 
 /-! ### response generation -/
 
@@ -493,7 +502,19 @@ def noHandler (s : ReqLive) : ReqLive :=
     else { s with httpStatus := 403 }
   else s
 
-/-- the subrequest_start hooks (mod_indexfile, mod_access, mod_staticfile) and the fallback -/
+/-- a handler module that takes the request at subrequest_start and reads the whole request body
+    before answering (mod_cgi and the other gateways with the default, non-streaming request
+    body): r->handler_module stays set until request_reset(); a chunked body ends with
+    reqbody_length = number of bytes received -/
+def sinkHandle (site : Site) (s : ReqLive) : ReqLive :=
+  let len : Int := if s.reqbodyLength < 0 then 0 else s.reqbodyLength
+  let s := { s with handlerModule := true, reqbodyLength := len,
+                    reqbodyQueue := { s.reqbodyQueue with bytesIn := len.toNat } }
+  let s := respSet s idContentType (ofString "Content-Type") (ofString "text/plain")
+  { s with httpStatus := 200, respBodyFinished := true, writeQueue := s.writeQueue.append site.sinkBody }
+
+/-- the subrequest_start hooks (mod_indexfile, mod_access, the gateway-like handler, mod_staticfile)
+    and the fallback -/
 def subrequestStart (site : Site) (s : ReqCore) : ReqCore :=
   -- mod_indexfile
   let s :=
@@ -505,6 +526,11 @@ def subrequestStart (site : Site) (s : ReqCore) : ReqCore :=
   -- mod_access (second call)
   if site.denySuffix.any (fun d => endsWith s.uriPath.bytes d) then
     s.onLive fun l => { l with httpStatus := 403, handlerModule := false }
+  else
+  -- body-reading handler module (before mod_staticfile in module order)
+  let isFile := match site.lookup s.physPath.bytes with | some (.file _ _ _) => true | _ => false
+  if !s.handlerModule && isFile && site.sinkExt.any (fun x => endsWith s.physPath.bytes x) then
+    s.onLive (sinkHandle site)
   else
   -- mod_staticfile
   let excluded := site.excludeExt.any (fun x => endsWith s.physPath.bytes x)
@@ -523,6 +549,10 @@ def subrequestStart (site : Site) (s : ReqCore) : ReqCore :=
 def prepareSetup (site : Site) (s : ReqCore) : Except ReqCore ReqCore :=
   if s.physPath.isNone then
     let s := httpResponseConfig site s
+    if s.reqbodyLength > 0 && s.conf.maxRequestSize ≠ 0
+       && s.reqbodyLength > (s.conf.maxRequestSize : Int) * 1024 then
+      .error (s.onLive (errorClose · 413))            -- 413 Payload Too Large, connection closed
+    else
     -- uri_clean hooks in module order: mod_access (a rejection ends the hook chain), mod_setenv
     if site.denySuffix.any (fun d => endsWith s.uriPath.bytes d) then
       .error (s.onLive fun l => { l with httpStatus := 403, handlerModule := false })
@@ -581,33 +611,40 @@ def staticErrdoc (s : ReqLive) : ReqLive :=
   let s := { s with respBodyFinished := true, writeQueue := s.writeQueue.append (errorPage s.httpStatus) }
   respSet s idContentType (ofString "Content-Type") (ofString "text/html")
 
-/-- http_response_write_prepare() (Range handling is C15's model; not repeated here) -/
-def writePrepare (s : ReqLive) : ReqLive :=
-  let s :=
-    if s.httpStatus = 204 || s.httpStatus = 205 || s.httpStatus = 304 then
-      let s := if s.httpStatus ≠ 304 then respUnset s idContentLength (ofString "Content-Length") else s
-      { bodyClear hdrIds s true with respBodyFinished := true }
-    else if errdocApplies s then staticErrdoc s
-    else s
-  let s := setenvResponseStart s
-  let s :=
-    if s.respBodyFinished then
-      if !(btst s.respHtags idContentLength || btst s.respHtags idTransferEncoding) then
-        let qlen := s.writeQueue.data.length
-        if qlen > 0 then respSet s idContentLength (ofString "Content-Length") (natToDec qlen)
-        else if s.method ≠ mHEAD && s.httpStatus ≠ 204 && s.httpStatus ≠ 304 then
-          respSet s idContentLength (ofString "Content-Length") [48]
-        else s
+/-- http_response_write_prepare(), first part: header-only status classes, error document -/
+def wpStatus (s : ReqLive) : ReqLive :=
+  if s.httpStatus = 204 || s.httpStatus = 205 || s.httpStatus = 304 then
+    let s := if s.httpStatus ≠ 304 then respUnset s idContentLength (ofString "Content-Length") else s
+    { bodyClear hdrIds s true with respBodyFinished := true }
+  else if errdocApplies s then staticErrdoc s
+  else s
+
+/-- http_response_write_prepare(), after the response_start hooks: Content-Length /
+    Transfer-Encoding (Range handling is C15's model; not repeated here) -/
+def wpFraming (s : ReqLive) : ReqLive :=
+  if s.respBodyFinished then
+    if !(btst s.respHtags idContentLength || btst s.respHtags idTransferEncoding) then
+      let qlen := s.writeQueue.data.length
+      if qlen > 0 then respSet s idContentLength (ofString "Content-Length") (natToDec qlen)
+      else if s.method ≠ mHEAD && s.httpStatus ≠ 204 && s.httpStatus ≠ 304 then
+        respSet s idContentLength (ofString "Content-Length") [48]
       else s
-    else if s.version ≥ 2 then s
-    else if !(btst s.respHtags idContentLength || btst s.respHtags idTransferEncoding
-              || btst s.respHtags idUpgrade) then
-      if s.version = 1 then
-        respAppend { s with respSendChunked := true } idTransferEncoding (ofString "Transfer-Encoding")
-          (ofString "chunked")
-      else { s with keepAlive := 0 }
     else s
+  else if s.version ≥ 2 then s
+  else if !(btst s.respHtags idContentLength || btst s.respHtags idTransferEncoding
+            || btst s.respHtags idUpgrade) then
+    if s.version = 1 then
+      respAppend { s with respSendChunked := true } idTransferEncoding (ofString "Transfer-Encoding")
+        (ofString "chunked")
+    else { s with keepAlive := 0 }
+  else s
+
+/-- http_response_write_prepare(), end: a HEAD response has no body -/
+def wpHead (s : ReqLive) : ReqLive :=
   if s.method = mHEAD then { bodyClear hdrIds s true with respBodyFinished := true } else s
+
+/-- http_response_write_prepare() -/
+def writePrepare (s : ReqLive) : ReqLive := wpHead (wpFraming (setenvResponseStart (wpStatus s)))
 
 /-- http_response_has_error_handler() with no error handler configured: only the restoration
     from error_handler_saved_status / error_handler_saved_method (`savedMethod`) remains -/
@@ -699,41 +736,72 @@ structure Conn where
   r : ReqSt
   requestCount : Nat := 0
   isOpen : Bool := true
+  pendingBlank : Bool := false     -- one blank line is waiting in the read queue (keep-alive only)
 deriving Repr, DecidableEq
 
 def Conn.fresh (e : SrvEnv) : Conn := { r := ReqSt.init e }
 
-/-- h1_recv_headers() for the next request head on the connection: the limit checks come before
-    request_reset_ex(), which is only done from the second request on -/
-def h1Parse (c : Conn) (head : Bytes) : IntoRes ReqSt :=
-  let r0 := c.r.onLive fun l => { l with loopsPerRequest := 0 }   -- connection_handle_request_start_state()
+def isCtl (block : Bytes) : Bool := match block.head? with | some b => b < 32 | none => false
+def startsBlank (block : Bytes) : Bool := block.head? = some cr || block.head? = some lf
+
+/-- "invalid request-line -> sending Status 400" of h1_recv_headers() -/
+def reject400 (r0 : ReqSt) : IntoRes ReqSt :=
+  .done (r0.onLive fun l => { l with httpStatus := 400, keepAlive := 0 })
+
+/-- h1_recv_headers() on data that does not start with a blank line to be discarded: the limit
+    checks come before request_reset_ex(), which is only done from the second request on -/
+def h1ParseNoDiscard (c : Conn) (r0 : ReqSt) (head : Bytes) : IntoRes ReqSt :=
   match recvHead r0.conf.maxRequestFieldSize head with
   | .tooLarge => .done (r0.onLive fun l => { l with httpStatus := 431, keepAlive := 0 })
   | .head _ _ => parseIntoH1 (if c.requestCount + 1 > 1 then requestResetEx r0 else r0) head
-  | .incomplete => .incomplete
-  | .blank _ => .blank
+  | .incomplete => if isCtl head then reject400 r0 else .incomplete
+  | .blank _ => reject400 r0
+
+/-- h1_recv_headers() for the next data on the connection.  Between keep-alive requests ONE blank
+    line is discarded (if the data ends there the server waits: `.blank`); a blank line at the start
+    of the first request, a second blank line, or any other control byte where a request should
+    start is answered 400 -/
+def h1Parse (c : Conn) (head : Bytes) : IntoRes ReqSt :=
+  -- connection_handle_request_start_state(); the bytes arrive in the connection's read queue
+  let r0 := c.r.onLive fun l => { l with loopsPerRequest := 0 }
+  let r0 : ReqSt := { r0 with readQueue := { r0.readQueue with bytesIn := r0.readQueue.bytesIn + head.length } }
+  if c.pendingBlank then
+    if startsBlank head then reject400 r0 else h1ParseNoDiscard c r0 head
+  else
+    match recvHead r0.conf.maxRequestFieldSize head with
+    | .blank len =>
+      if c.requestCount + 1 > 1 then
+        if head.length = len then .blank
+        else if startsBlank (head.drop len) then reject400 r0
+        else h1ParseNoDiscard c r0 (head.drop len)
+      else reject400 r0
+    | _ => h1ParseNoDiscard c r0 head
 
 /-- http_response_handler(), h1_send_headers(), connection_handle_response_end_state() for the
-    `count`-th request of the connection.  No module of the modelled site reads a request body,
-    so r->reqbody_queue stays empty and a request that announces a body is answered with
-    keep-alive off. -/
+    `count`-th request of the connection.  A request body is read only by a handler module
+    (`sinkHandle`); otherwise r->reqbody_queue stays empty and a request that announces a body is
+    answered with keep-alive off. -/
 def h1Finish (site : Site) (e : SrvEnv) (count : Nat) (r1 : ReqSt) : Conn × Option Out :=
   let r2 := (respond site r1).onLive (h1SendHeaders count)
   let out := h1Output r2.toReqLive
   let incomplete := r2.reqbodyLength ≠ (r2.reqbodyQueue.bytesIn : Int)
   let ka := r2.keepAlive > 0 && !incomplete
   if ka then
-    ({ r := requestReset hdrIds e r2, requestCount := count, isOpen := true }, some { out with keepAlive := true })
+    -- request_reset(), then the accounting checkpoints of the next keep-alive request
+    let r3 := requestReset hdrIds e r2
+    ({ r := { r3 with x0 := r3.writeQueue.bytesOut, x1 := r3.readQueue.bytesIn, state := 1 },
+       requestCount := count, isOpen := true }, some { out with keepAlive := true })
   else
     -- connection_handle_shutdown() -> connection_reset(); connection_close() -> request_reset_ex()
     ({ r := { requestResetEx (requestReset hdrIds e r2) with state := 0 }, requestCount := 0, isOpen := false },
      some { out with keepAlive := false })
 
-/-- one request head on an HTTP/1.x connection -/
+/-- the next data (one request head, possibly preceded by a blank line) on an HTTP/1.x connection -/
 def h1Msg (site : Site) (e : SrvEnv) (c : Conn) (head : Bytes) : Conn × Option Out :=
   if !c.isOpen then (c, none) else
   match h1Parse c head with
   | .done r1 => h1Finish site e (c.requestCount + 1) r1
+  | .blank => ({ c with pendingBlank := true }, none)      -- wait for more data
   | _ =>
     -- incomplete head and the client went away: connection_reset(), connection_close()
     ({ r := { requestResetEx (requestReset hdrIds e c.r) with state := 0 }, requestCount := 0, isOpen := false }, none)
